@@ -26,7 +26,7 @@ PreValidationRejects ==
      "rpc-get-notnse", "rpc-put", "streamtype", "bidi-http1", "grpc-http1", "badtimeout",
      "contentencoding", "unknowncomp", "unknowncodec", "restonly-norule"}
 \* refused after validation succeeded: the error is rendered in the client's protocol
-PostValidationRejects == {"leading-undecodable", "noflusher"}
+PostValidationRejects == {"leading-undecodable", "leading-truncated", "noflusher"}
 
 RejectStatus(rej) ==
     CASE rej \in {"multict", "connectver-noct-post", "connectq-post", "streamtype", "contentencoding",
